@@ -30,6 +30,25 @@ def spec_cases(ctx, r, **extra):
     recipes = [x for x in recipes if x.get("c") != "leaf"]
     return [dict({"recipe": x, "src": "spec", "leaf_str": bool(i % 2)}, **extra) for i, x in enumerate(recipes)]
 
+def repo_test_events(ctx, ops, max_per_op=3000):
+    """the repository's own tests (and doctests) run under the recording plugin; every recorded top-level call is added
+    as an event (validated by TLC like every other event).  Nothing is written under the repository."""
+    import subprocess
+    out = os.path.join(ctx.work, "repo_tests.ndjson")
+    env = dict(os.environ, REC_OUT=out, REC_OPS=",".join(ops), REC_MAX=str(max_per_op),
+               HYPOTHESIS_STORAGE_DIRECTORY=os.path.join(ctx.work, "hyp"), PYTHONPATH=core.REPO + os.pathsep + core.VERIF)
+    t0 = time.time()
+    r = subprocess.run([os.sys.executable, "-m", "pytest", "-q", "-p", "no:cacheprovider", "-p", "harness.recorder", "--timeout=900",
+                        "-o", "addopts=", "tests"], cwd=core.REPO, env=env, capture_output=True, text=True)
+    n = 0
+    if os.path.exists(out):
+        for line in open(out):
+            e = json.loads(line)
+            ctx.add_event(e, {"src": "repo_tests", "driver": "recorder"}); n += 1
+    ctx.notes.append("repository tests under the recorder: %d events of %s in %.0fs (%s)" % (n, list(ops), time.time() - t0, (r.stdout.strip().splitlines() or ["?"])[-1][:100]))
+    ctx.region("repo_test_events", n)
+    return n
+
 REGIONS = ["kids>=4", "depth>=3", "shared_sub", "neg_lower_leaf", "value_out_of_range", "neg_over_compound",
            "explicit_id", "generated_id", "interleaved_ids"]
 ALLC = ["AtLeast", "AtMost", "All", "Any", "Xor", "XNor", "Imply", "Not"]
@@ -56,6 +75,7 @@ def run_c01(ctx):
     for c in wc: c["wide"] = True
     cases += wc
     ctx.pmap(drivers.drv_to_poly, _stamp(cases, "drv_to_poly"))
+    if not q: repo_test_events(ctx, ['to_poly'])
     ctx.validate()
 
 # ------------------------------------------------------------------------------------------- C02
@@ -91,6 +111,7 @@ def run_c03(ctx):
     cases += spec_cases(ctx, r2, n_over=2)
     cases += random_cases(ctx, 300 if q else 4000, REGIONS + ["prefixed_compound"], max_box=128, prefix=0.2)
     ctx.pmap(drivers.drv_evaluate, _stamp(cases, "drv_evaluate"))
+    if not q: repo_test_events(ctx, ['evaluate'])
     ctx.validate()
 
 # ------------------------------------------------------------------------------------------- C04
@@ -146,6 +167,7 @@ def run_c05(ctx):
     cases += spec_cases(ctx, r3)
     cases += random_cases(ctx, 300 if q else 4000, REGIONS + ["degenerate_leaf"], max_box=128)
     ctx.pmap(drivers.drv_negate, _stamp(cases, "drv_negate"))
+    if not q: repo_test_events(ctx, ['negate'])
     ctx.validate()
 
 # ------------------------------------------------------------------------------------------- C06
@@ -158,6 +180,7 @@ def run_c06(ctx):
     for c in rc: c["max_interps"] = 12 if q else 40
     cases += rc
     ctx.pmap(drivers.drv_partial, _stamp(cases, "drv_partial"))
+    if not q: repo_test_events(ctx, ['evaluate'])
     ctx.validate()
 
 # ------------------------------------------------------------------------------------------- C07
@@ -173,6 +196,7 @@ def run_c07(ctx):
     for c in rc: c.update(max_ids=3, n_dicts=8 if q else 24)
     cases += rc
     ctx.pmap(drivers.drv_assume, _stamp(cases, "drv_assume"))
+    if not q: repo_test_events(ctx, ['assume'])
     ctx.validate()
 
 # ------------------------------------------------------------------------------------------- C08
@@ -188,6 +212,7 @@ def run_c08(ctx):
     for c in rc: c.update(max_ids=3, n_dicts=8 if q else 24)
     cases += rc
     ctx.pmap(drivers.drv_reduce, _stamp(cases, "drv_reduce"))
+    if not q: repo_test_events(ctx, ['reduce'])
     ctx.validate()
 
 # ------------------------------------------------------------------------------------------- C10
@@ -243,6 +268,7 @@ def run_c10(ctx):
     cases += [{"recipe": x, "src": "handmade"} for x in adversarial_handmade()]
     cases += random_cases(ctx, 400 if q else 5000, ["shared_sub", "depth>=3", "kids>=4", "explicit_id", "generated_id"], max_box=1 << 20)
     ctx.pmap(drivers.drv_errors, _stamp(cases, "drv_errors"))
+    if not q: repo_test_events(ctx, ['errors'])
     ctx.validate()
 
 # ------------------------------------------------------------------------------------------- C16 / C17
@@ -454,6 +480,7 @@ def run_c13(ctx):
     for f in ("empty_middle_row", "cancelling_row", "rows>=3", "3d"):
         if not ctx.regions.get(f): raise Machinery("random arrays did not reach region " + f)
     ctx.pmap(drivers.drv_compress, _stamp(cases, "drv_compress"))
+    if not q: repo_test_events(ctx, ['compress'])
     ctx.validate()
 
 # ------------------------------------------------------------------------------------------- C14 / C15
